@@ -127,6 +127,32 @@ mod verif_nx_parse {
         assert!(n > 30_000, "enumeration ran");
     }
 
+    // a wider alphabet (operators, brackets, literals, more keywords) up to length 3
+    const WIDE: [&str; 44] = [
+        "begin ", "end ", "; ", "a ", ":= ", "if ", "then ", "else ", "( ", ") ", "{$ifdef X} ", "{$else} ", "{$endif} ",
+        "//c\n", "procedure ", "var ", ": ", "case ", "of ", "asm ", "class ", ", ",
+        "^ ", "< ", "> ", "= ", ". ", "[ ", "] ", "'s' ", "1 ", "@ ", "property ", "type ", "record ", "interface ", "function ", "try ", "except ",
+        "for ", "do ", "{$if X} ", "uses ", "const ",
+    ];
+
+    #[test]
+    fn verif_nx_parse_cover_wide3() {
+        let mut n = 0u64;
+        let k = WIDE.len();
+        check("", false, &mut n);
+        for a in 0..k {
+            check(WIDE[a], false, &mut n);
+            for b in 0..k {
+                check(&format!("{}{}", WIDE[a], WIDE[b]), false, &mut n);
+                for c in 0..k {
+                    check(&format!("{}{}{}", WIDE[a], WIDE[b], WIDE[c]), false, &mut n);
+                }
+            }
+        }
+        println!("NX parse_cover_wide3: {} cases", n);
+        assert!(n > 80_000, "enumeration ran");
+    }
+
     // all sequences up to length 4 (22^4 = 234 256 + shorter)
     #[test]
     fn verif_nx_parse_cover_len4() {
